@@ -70,7 +70,7 @@ fn pat_list(u: &mut U, max_pats: usize) -> PatList {
         10 => PatList::Utf8Starts { items: (0..1 + u.below(6)).map(|_| (u.u8(), u.bytes(5))).collect() },
         9 => PatList::DeepNested { unit: { let mut v = u.bytes(1); v.push(u.u8()); v }, n: [3u16, 20, 60, 255, 256, 257, 300][u.below(7)], reverse: u.bool() },
         8 => PatList::LongNested { base: (0..70 + u.below(70)).map(|_| u.u8()).collect(), cuts: (0..1 + u.below(4)).map(|_| (u.u16(), u.bool())).collect(), extra: (0..u.below(4)).map(|_| { let mut v = u.bytes(4); v.push(u.u8()); v.push(u.u8()); v }).collect(), rotate: u.u8() },
-        7 => PatList::MidPacked { raws: (0..14 + u.below(37)).map(|_| { let mut v = u.bytes(4); v.push(u.u8()); v.push(u.u8()); v }).collect(), dups: (0..1 + u.below(12)).map(|_| (u.u16(), u.u16())).collect() },
+        7 => PatList::MidPacked { raws: (0..if u.u8() % 4 == 0 { 60 + u.below(71) } else { 14 + u.below(37) }).map(|_| { let mut v = u.bytes(4); v.push(u.u8()); v.push(u.u8()); v }).collect(), dups: (0..1 + u.below(12)).map(|_| (u.u16(), u.u16())).collect() },
         _ => {
             let n = 1 + u.below(max_pats);
             PatList::General(
@@ -221,6 +221,8 @@ pub fn decode(prop: &str, data: &[u8]) -> Case {
         }
     }
     if prop == "C10" {
+        let (mode, pa, pb) = (u.u8(), u.u16(), u.u16());
+        crate::props::prefilter::directed_cut(&mut case, mode, pa, pb);
         let pcs2 = pieces(&mut u, 10);
         let mut o = gen::realize_haystack(&pcs2, &case.patterns, &alpha, 1);
         if o.is_empty() {
